@@ -193,7 +193,7 @@ func c05DoOp(w *World, sp *c05Spec, set *pongo2.TemplateSet, shared *pongo2.Temp
 			sp.Prog.ApplyTplOptions(tpl)
 		} // else: the cached object was configured before the tasks started
 	}
-	return w.Exec(tpl, op.Entry, ctx, sp.Prog.Blocks)
+	return w.Exec(tpl, op.Entry, ctx, blockSel(sp.Prog.Blocks, op.Ctx+len(op.Plan)))
 }
 
 func (c05Checker) Run(tp *Tapes, opt RunOpt) *Outcome {
